@@ -1108,24 +1108,30 @@ pub async fn fork_history_atr(hrng: &mut Rng, gp: u64, case: usize) -> (Sim, Str
                             }
                         }
                     }
-                    // A goes on from the winning tip: block k + 2, C13 oracle on it, accepted by B as well
+                    // A goes on from the winning tip until the blocks of the fork height have left the window
+                    // (blocks k + 2 .. k + gp + 3): C13 oracle on every block — the outputs of the WINNING block k
+                    // must be the ones that are rebroadcast at k + gp + 1, although the abandoned block was stored
+                    // first at that height — and B, which only saw the winning chain, must accept each of them
                     a.chain.pop();
                     a.chain.push(bk);
                     a.chain.push(bk1);
                     a.rebroadcast_seen = b.rebroadcast_seen.clone();
-                    let ts3 = a.tip().timestamp + 2 * HEARTBEAT + 500;
-                    let gt3 = if want_gt(&a, hrng, true) { let p = a.tip().clone(); Some(gt_tx_for(&a.node, &p, a.keys[1].0, 904).await) } else { None };
-                    let (co3, sr3, rep3, _m) = atr_checked_step(&mut a, ts3, gt3.clone(), &[]).await;
-                    if co3 != CreateOutcome::Ok || sr3.add != Some(AddClass::OnChain) {
-                        fails.push(format!("after the reorganisation the node cannot extend the winning chain: create {:?}, add {:?} {}", co3, sr3.add, sr3.panic_msg.clone().unwrap_or_default()));
-                    } else {
+                    for j in 0..(gp + 2) {
+                        let ts3 = a.tip().timestamp + 2 * HEARTBEAT + 500;
+                        let gt3 = if want_gt(&a, hrng, true) { let p = a.tip().clone(); Some(gt_tx_for(&a.node, &p, a.keys[1].0, 904 + j).await) } else { None };
+                        let (co3, sr3, rep3, _m) = atr_checked_step(&mut a, ts3, gt3.clone(), &[]).await;
+                        if co3 != CreateOutcome::Ok || sr3.add != Some(AddClass::OnChain) {
+                            fails.push(format!("after the reorganisation the node cannot extend the winning chain (block {}): create {:?}, add {:?} {}", a.tip().id + 1, co3, sr3.add, sr3.panic_msg.clone().unwrap_or_default()));
+                            break;
+                        }
                         if let Some(r) = rep3 {
                             fails.extend(r.failures);
                         }
                         let blk = a.tip().clone();
-                        let sr4 = b.step(ts3, gt3, &[], CreateOutcome::NotCalled, None, Some(blk)).await;
+                        let sr4 = b.step(ts3, gt3, &[], CreateOutcome::NotCalled, None, Some(blk.clone())).await;
                         if sr4.add != Some(AddClass::OnChain) {
-                            fails.push(format!("the block built after the reorganisation is not accepted by a node that only saw the winning chain: {:?}", sr4.add));
+                            fails.push(format!("block {} built after the reorganisation is not accepted by a node that only saw the winning chain: {:?}", blk.id, sr4.add));
+                            break;
                         }
                     }
                 }
